@@ -455,7 +455,12 @@ def generator_skeleton(repo: pathlib.Path, target: str) -> Dict[str, Any]:
         for i, st in enumerate(body[:table_at]):
             er = _error_result_assign(st)
             if er is not None:
-                checks.append({"call": er[2], "handling": _handling(body, i, er[0], er[1]), "tuple": er[1] is not None})
+                nxt_src = ast.unparse(body[i + 1]) if i + 1 < len(body) else ""
+                checks.append({
+                    "call": er[2], "handling": _handling(body, i, er[0], er[1]), "tuple": er[1] is not None,
+                    # for the stubs only: the errors are texts (passed to the report as they are), not Error objects
+                    "strings": "error_message(" not in nxt_src,
+                })
         table = body[table_at].value  # type: ignore
         if not isinstance(table, (ast.List, ast.Tuple)) or not table.elts:
             raise ExtractError(f"{rel}: rel_paths_generators is not a non-empty list literal")
@@ -587,11 +592,13 @@ class _Stubbed:
             patches.append((obj, name, getattr(obj, name)))
             setattr(obj, name, new)
 
-        def make_check(is_tuple: bool) -> Any:
+        def make_check(is_tuple: bool, strings: bool) -> Any:
             def stub(*a: Any, **k: Any) -> Any:
                 i = state["check"]
                 state["check"] += 1
-                errs = [Error(None, f"STUB-CHECK-{i}")] if i in failed else None
+                errs: Any = None
+                if i in failed:
+                    errs = [f"STUB-CHECK-{i}"] if strings else [Error(None, f"STUB-CHECK-{i}")]
                 if is_tuple:
                     return (None, errs) if errs else (self.st, None)
                 return errs
@@ -623,7 +630,7 @@ class _Stubbed:
             if c["call"] not in done:
                 done.add(c["call"])
                 obj, name = self._resolve(c["call"])
-                patch(obj, name, make_check(c["tuple"]))
+                patch(obj, name, make_check(c["tuple"], c["strings"]))
         fall_by_call: Dict[str, bool] = {}
         for st in sk["steps"]:
             if st["call"] in fall_by_call and fall_by_call[st["call"]] != st["fallible"]:
